@@ -107,13 +107,15 @@ class Plane:
         
         :param p: A 3D point
         :type p: 3-element array_like
-        :param tol: Tolerance, defaults to 10*_eps
+        :param tol: Tolerance on the distance of the point from the plane, relative to the
+            magnitude of the coordinates (at least 1), defaults to 10*_eps
         :type tol: float, optional
         :return: if the point is in the plane
         :rtype: bool
 
         """
-        return abs(np.dot(self.n, p) + self.d) < tol
+        p = base.getvector(p, 3)
+        return abs(np.dot(self.n, p) + self.d) / np.linalg.norm(self.n) < tol * max(1, np.linalg.norm(p))
     
     def __str__(self):
         """
@@ -557,7 +559,7 @@ class Plucker(SMUserList):
         l1 = self
         return not l1.__eq__(l2)
     
-    def isparallel(self, l2, tol=10*_eps):  # pylint: disable=no-self-argument
+    def isparallel(self, l2, tol=1e-9):  # pylint: disable=no-self-argument
         """
         Test if lines are parallel
         
@@ -565,6 +567,11 @@ class Plucker(SMUserList):
         :type l1: Plucker
         :param l2: Second line
         :type l2: Plucker
+        :param tol: largest sine of the angle between lines regarded as parallel.  The
+            direction of a line through two points carries their rounding error
+            magnified by the ratio of their magnitude to their separation, so a
+            tolerance at rounding level would miss lines that are parallel by construction
+        :type tol: float, optional
         :return: lines are parallel
         :rtype: bool
 
